@@ -60,7 +60,7 @@ impl Truth {
 pub const SHAPES: [&str; 4] = ["one", "ladder", "ladder+empty", "many"];
 pub const CRYPTO: [&str; 4] = ["plain", "encrypted", "encrypted+fixkey", "mixed"];
 
-fn crypto_of(axis: usize, k: usize) -> (bool, bool) {
+pub fn crypto_of(axis: usize, k: usize) -> (bool, bool) {
     let c = if axis == 3 { k % 3 } else { axis };
     (c >= 1, c == 2)
 }
